@@ -128,6 +128,52 @@ theorem getList_total (conv : α → Option β) (items : List α) :
     refine Or.inr ⟨pre.length, by simp, ?_⟩
     simp [getFromObjectList, convertFrom_error' conv pre a post 0 [] hp ha]
 
+/-- **Every value converts**: whether a sequence is accepted depends only on the classes of its items; every
+payload - also -1, 0, the smallest and the largest value - arrives unchanged, in order. -/
+theorem getList_every_value_converts (accepts : List Nat) (items : List (Nat × Nat))
+    (h : ∀ a ∈ items, accepts.contains a.1 = true) :
+    getFromObjectList (classConv accepts) (.seq items) = .ok (items.map (·.2)) ⟨0, 1, 0⟩ :=
+  getList_converts_in_order (classConv accepts) (·.2) items (fun a ha => by have := h a ha; simp only [classConv, this, if_true])
+
+/-- the verdict on a sequence does not depend on the payloads at all. -/
+theorem getList_verdict_value_independent (accepts : List Nat) (items items' : List (Nat × Nat))
+    (h : items.map (·.1) = items'.map (·.1)) :
+    (∃ arr h1, getFromObjectList (classConv accepts) (.seq items) = .ok arr h1) ↔
+    (∃ arr h1, getFromObjectList (classConv accepts) (.seq items') = .ok arr h1) := by
+  have key : ∀ (xs ys : List (Nat × Nat)), xs.map (·.1) = ys.map (·.1) →
+      ((∀ a ∈ xs, ((classConv accepts) a).isSome = true) ↔ (∀ a ∈ ys, ((classConv accepts) a).isSome = true)) := by
+    intro xs
+    induction xs with
+    | nil => intro ys hh; cases ys with
+      | nil => simp
+      | cons y r => simp at hh
+    | cons x r ih =>
+      intro ys hh
+      cases ys with
+      | nil => simp at hh
+      | cons y r' =>
+        simp only [List.map_cons, List.cons.injEq] at hh
+        have := ih r' hh.2
+        simp only [List.mem_cons, forall_eq_or_imp, this]
+        simp [classConv, hh.1]
+  have total : ∀ (xs : List (Nat × Nat)),
+      (∃ arr h1, getFromObjectList (classConv accepts) (.seq xs) = .ok arr h1) ↔
+        (∀ a ∈ xs, ((classConv accepts) a).isSome = true) := by
+    intro xs
+    constructor
+    · rintro ⟨arr, h1, hok⟩
+      rcases first_bad (classConv accepts) xs with hall | ⟨pre, a, post, he, hp, ha⟩
+      · exact hall
+      · subst he
+        simp [getFromObjectList, convertFrom_error' (classConv accepts) pre a post 0 [] hp ha] at hok
+    · intro hall
+      have := convertFrom_ok' (classConv accepts) xs 0 [] hall
+      exact ⟨xs.filterMap (classConv accepts), ⟨0, 1, 0⟩, by simp [getFromObjectList, this.1]⟩
+  rw [total items, total items', key items items' h]
+
+example : getFromObjectList (classConv [0, 3]) (.seq [(0, 0), (0, 4294967295), (3, 1)]) = .ok [0, 4294967295, 1] ⟨0, 1, 0⟩ := by
+  rfl
+
 /-- `fill_from_PyObject_<T>_list` with a sequence: the first `min(len, insize)` items are converted in order
 into the front of the existing array, the rest of the array is untouched, its length never changes. -/
 theorem fill_seq_in_order (conv : α → Option β) (f : α → β) (buf : List β) (items : List α)
